@@ -147,9 +147,12 @@ fn rule_c14(ctx: &Ctx, out: &mut Vec<Violation>) {
                 Some(i) if i.push.is_some() => i,
                 _ => continue,
             };
-            if m.sub_delete_ever(name) || m.unique_topic(&inst.topic).is_none() || m.topic_deletes.contains_key(&inst.topic) {
+            if m.sub_delete_ever(name) || m.unique_topic(&inst.topic).is_none() {
                 continue;
             }
+            // A deleted topic does not end the obligation for what the subscription already holds:
+            // only publishes that had returned before any DeleteTopic was invoked count then.
+            let first_topic_delete = m.topic_deletes.get(&inst.topic).map(|d| d.iter().map(|dc| m.calls[dc].inv_seq).min().unwrap_or(u64::MAX)).unwrap_or(u64::MAX);
             if inst.deadline_us() > 600_000_000 {
                 continue;
             }
@@ -170,11 +173,11 @@ fn rule_c14(ctx: &Ctx, out: &mut Vec<Violation>) {
                     (Some(id), true) => id,
                     _ => continue,
                 };
-                if !(inst.established_seq < pc.inv_seq) || pc.ret_seq.unwrap() > fseq {
+                if !(inst.established_seq < pc.inv_seq) || pc.ret_seq.unwrap() > fseq || pc.ret_seq.unwrap() > first_topic_delete {
                     continue;
                 }
                 // consumers other than the push loop may have taken it (pull on a push subscription)
-                let taken_elsewhere = m.deliveries_by_key.get(&(name.clone(), id.clone())).map(|l| l.iter().any(|&i| !matches!(m.deliveries[i].via, Via::Push { .. }))).unwrap_or(false);
+                let taken_elsewhere = m.deliveries_by_key.get(&(name.clone(), id.clone())).map(|l| l.iter().any(|&i| !matches!(m.deliveries[i].via, Via::Push { .. }) && m.deliveries[i].recv_t <= bound)).unwrap_or(false);
                 if taken_elsewhere {
                     continue;
                 }
